@@ -3,8 +3,8 @@ NEXT XNext
 CONSTANTS
   Datas <- MCDatas
   Scripts <- MCScripts
-  CLs <- MCCLs
-  Sizes <- MCSizes
+  CLs <- QCLs
+  Sizes <- QSizes
   ShortReads <- SwShort
   ChargeByRequested <- SwCharge
   BoundLineOps <- SwBound
@@ -12,6 +12,9 @@ CONSTANTS
   CountTruncated <- SwCount
   HonourDisconnect <- SwDisc
   TellFromZero <- SwTell
+  RejectNegativeCL <- SwNeg
+  AccountBeforeYield <- SwYield
+  ExhaustToTheEnd <- SwExh
   Depth = 0
   MaxEvents = 2
   MaxEvLen = 3
